@@ -24,7 +24,8 @@ EXPLANATION = (
     "visits every sub-expression of a constant initialiser or rejects the whole expression (function calls, |x|); R8 the "
     "length of a fixed-size array is LLVMGetArrayLength of the pointee type of its storage address, not a quotient of sizes."
     " ADDED LATER: R7 the constness analyzer visits or rejects every sub-expression; R8 |x| of a fixed array is LLVMGetArrayLength of the pointee type; R9 a named length is only read from an integer constant; C09.R7 (string literal bytes) is shared."
-    " ROUNDS 5-6: C07.R5-EQUALS-STRUCTURAL is shared (a length read off a parameter type is the caller's only if the coercion compared every dimension).")
+    " ROUNDS 5-6: C07.R5-EQUALS-STRUCTURAL is shared (a length read off a parameter type is the caller's only if the coercion compared every dimension)."
+    " ROUND 7: R2-MEMBER-PADDING: in align_struct every member of known size is padded to its own alignment unconditionally before its size is added.")
 
 VT = "alpha::value_type::ValueType::"
 
